@@ -2,16 +2,16 @@
 SPECIFICATION Spec
 CONSTANTS
   Enc = {"e1","e2"}
-  Emb = {"m1","m2"}
+  Emb = {"m1"}
   SelfEmb = {"ms"}
-  Keys = {"k1"}
+  Keys = {}
   Fns = {"d1","d2"}
-  EncKinds = {"val","nil","ref","fail","nilres","valres","failres","child","backref"}
-  EmbKinds = {"val","obj","fail","other","cycle","defer"}
+  EncKinds = {"val","nil","ref","fail","nilres","valres","failres"}
+  EmbKinds = {"val","obj","fail","cycle","defer"}
   SelfKinds = {"self","fail"}
   KeyKinds = {"val","obj","fail"}
   FnKinds = {"noop","fail","embed","more","embedat"}
-  CallOps = {"Embed","EmbedFunc","GetReference","Store","StoreDeferred","StoreEncoded","Close"}
+  CallOps = {"Embed","GetReference","Store","StoreDeferred","StoreEncoded","Close"}
   MaxCalls = 4
   StepBound = 150
   CycleRecurses = FALSE
